@@ -25,6 +25,8 @@ type Profile struct {
 	VarEqual    bool
 	MapNShare   int
 	UnobsWrites bool // allow writes to unobserved vars from inside a pass
+	Memo        int  // share of binds that are BindMemoized (out of 100)
+	WPurge      int  // weight of cache Purge/Clear operations
 }
 
 func DefaultProfile() Profile {
@@ -139,6 +141,9 @@ func (g *Gen) construct() (Op, bool) {
 		for i := range cs {
 			cs[i] = g.texp(g.P.Depth, true)
 		}
+		if g.R.Intn(100) < g.P.Memo {
+			return Op{K: "NewBindMemo", Cases: cs, A: g.pickBiased(nodes)}, true
+		}
 		return Op{K: "NewBind", Cases: cs, A: g.pickBiased(nodes)}, true
 	case k < g.P.WBind+g.P.Cutoffs:
 		return Op{K: "NewCutoff", Cut: g.cut(), A: g.pickBiased(nodes)}, true
@@ -217,6 +222,20 @@ func (g *Gen) Next() Op {
 	p := g.P
 	total := p.WNew + p.WObserve + p.WUnobserve + p.WSet + p.WStabilize + p.WAddRemove
 	for tries := 0; tries < 50; tries++ {
+		if p.WPurge > 0 && g.R.Intn(total+p.WPurge) >= total {
+			var memos []int
+			for id, ref := range g.E.Nodes {
+				if ref != nil && ref.Kind == "BindMain" && ref.Bind.Memo != nil && ref.Scope == -1 {
+					memos = append(memos, id)
+				}
+			}
+			if len(memos) > 0 {
+				if g.R.Chance(1, 4) {
+					return Op{K: "ClearMemo", A: g.pick(memos)}
+				}
+				return Op{K: "PurgeMemo", A: g.pick(memos), V: g.R.Range(0, 6)}
+			}
+		}
 		k := g.R.Intn(total)
 		switch {
 		case k < p.WNew:
